@@ -804,7 +804,7 @@ Definition chk_step_C12 (dd : ddocs) : step_chk := fun prev x o ob =>
       match mapid, os_resp ob with
       | Some m, RRows rows =>
           if vp_stale p then true
-          else strs_eqb' rows (map render_vrow (select_rows p (fresh_index prev c m)))
+          else strs_eqb' rows (map render_vrow (reduce_rows p m (select_rows p (fresh_index prev c m))))
       | None, RErr EMissing => true
       | _, _ => false
       end
